@@ -72,6 +72,8 @@ ST_FROMTO = S("fromto", chunks={"quick": [None], "thorough": [None]}, n={"quick"
 ST_CODEC = S("codec", n={"quick": 1500, "thorough": 8000})
 ST_FMT = S("fmt", n={"quick": 500, "thorough": 4000}, args_tier={"thorough": ["--exhaustive", "2"]})
 ST_WRAP = S("wrap", n={"quick": 400, "thorough": 3000})
+ST_FMT_DIR = S("fmt", n={"quick": 100, "thorough": 600}, shards={"quick": 1, "thorough": 1}, args=["--stdin"],
+               gen=os.path.join(ROOT, "gen", "c09.py"))
 ST_PARSE = S("parse", n={"quick": 500, "thorough": 2500}, gen=os.path.join(ROOT, "gen", "c08.py"), gen_args={"thorough": ["--exhaustive", "1"]})
 ST_PARSE_SMALL = S("parse", n={"quick": 150, "thorough": 800}, gen=os.path.join(ROOT, "gen", "c08.py"))
 
@@ -128,7 +130,7 @@ PLANS = {
                      "digits); a coverage cell is (layout, radix, grid/tie/hair-from-tie/near-tie/generic/malformed, fits/over+/over-, digit "
                      "count class, sign); non-trivial = well-formed and non-zero",
                 need_ops=["ps10", "ps2", "ps8", "ps16"]),
-    "C09": dict(exhaustive={"thorough": True}, module="fmtm", streams=[ST_FMT], profiles=["release", "checked"],
+    "C09": dict(exhaustive={"thorough": True}, module="fmtm", streams=[ST_FMT, ST_FMT_DIR], profiles=["release", "checked"],
                 rule="one event = one (layout, value, trait, flag set, width, precision) formatted through a trait object, plus one round-trip "
                      "event (to_string, FromStr of it) per value; traits Display/Debug/Binary/Octal/LowerHex/UpperHex, flag sets "
                      "{none,+,#,0,+#0,<,^,>,*^,*<+#}, widths {none,0,1,7,40,150}, precisions {none,0,1..4,around frac bits,<60,<=200}; values are "
